@@ -22,7 +22,7 @@ signature is checked), the X.509 / CSR / DER-signature decoders and the Certific
 field or a constant (the date conversion it unwraps is total on that range); (e) in parse_pairing_code each digits_at(offset, len)
 group is bounded to its field (7, 0xFFFF, 0x1FFF, 0xFFFF, 0xFFFF) by a comparison whose failing edge leaves before Ok, or by its integer type.
 """
-CLAUSES = ['a: encoder/decoder field tables agree (PlainHdr, ProtoHdr, StatusReport)', 'b: decoder panic surface discharged (headers, pairing codes, BDX, check-in, BTP, BLE advertisements, mDNS TXT, certificate conversion, X.509/CSR/CD decoders)',
+CLAUSES = ['a: encoder/decoder field tables agree (PlainHdr, ProtoHdr, StatusReport); BDX range-control flags agree; the base-38 decoder yields its errors', 'b: decoder panic surface discharged (headers, pairing codes, BDX, check-in, BTP, BLE advertisements, mDNS TXT, certificate conversion, X.509/CSR/CD decoders)',
            'c: check digit / prefix / length refusals guard acceptance', 'd: utctime argument bounded at every call site',
            'e: every digit group of the manual code is bounded to its field width', 'f: mDNS TXT pairs split at the first `=` only']
 NOT_DECIDED = ['equality of decoded and encoded field values', 'base-38 and bit-packing arithmetic', 'parsing inside the external `der` and `domain` crates', 'equality of the X.509 form with the TLV form of a certificate']
